@@ -148,6 +148,25 @@ C17_CommandsRestored ==
   (Quiet /\ KeyByCtx) => \A n \in Names, c \in Ctxs :
      IF LatestDef(n, c) = 0 THEN <<n, c>> \notin DOMAIN cmd ELSE <<n, c>> \in DOMAIN cmd /\ cmd[<<n, c>>] = LatestDef(n, c)
 
+\* ---------------------------------------------------------------- liveness (MC_proc_live_c.cfg, no VIEW, no CONSTRAINT)
+\* the serve loop and the call tasks are the actors that run by themselves; clients and restarts are bounded
+Fairness == /\ WF_vars(ReplayStep \/ Threshold \/ LiveStep)
+            /\ WF_vars(\E cl \in calls : CallRecv(cl) \/ CallComplete(cl) \/ CallError(cl))
+FairSpec == Spec /\ Fairness
+\* the server catches up with the stream and every task ends
+L_Quiet == <>[]Quiet
+\* C19 as progress: every call of the current incarnation that met a definition ends up with exactly one terminal event
+\* and all the values of the definition it must use; an invalid definition ends up reported
+L_EveryCallAnswered ==
+  <>[](\A q \in CallsIdx : (DefFor(q) # 0 /\ log[q].j = inc) =>
+          /\ Cardinality(Terms(q)) = 1
+          /\ Cardinality({x \in Resp(q) : log[x].k = "recv"}) = (IF Errs(log[DefFor(q)].sk) THEN 0 ELSE NVal(log[DefFor(q)].sk)))
+L_InvalidReported ==
+  <>[](\A d \in Idx : (log[d].k = "define" /\ ~Valid(log[d].sk)) => \E x \in Idx : log[x].k = "error" /\ log[x].d = d /\ log[x].f = 0)
+\* C17 as progress: after the last restart the table ends up being what the log says
+L_Restored == KeyByCtx => <>[](\A n \in Names, c \in Ctxs :
+     IF LatestDef(n, c) = 0 THEN <<n, c>> \notin DOMAIN cmd ELSE <<n, c>> \in DOMAIN cmd /\ cmd[<<n, c>>] = LatestDef(n, c))
+
 GenInv == (Gen /\ nclient = MaxClient) => PrintT(<<"ACTS", ToJson(hist)>>)
 mcview == <<log, phase, T, srvPos, cmd, calls, nclient, nrestarts, inc>>
 =============================================================================
